@@ -1,0 +1,9 @@
+//go:build verif
+
+// Contracts for contract-based verification (/verif). Comment-only: with or without the
+// build tag "verif" this file adds nothing to the compiled package.
+
+package interop
+
+//@ func ConvertToFunctionResponseMode
+//@   modifies nothing
